@@ -74,11 +74,11 @@ try:
     res["checks"] = {}
     for c in checks:
         t = time.time()
-        rc, out = sh("./check %s --tier quick" % c, cwd="/verif", e=dict(os.environ, VERIF_REPO=wt), timeout=3000)
+        rc, out = sh("./check %s --tier quick" % c, cwd="/verif", e=dict(os.environ, VERIF_REPO=wt, VERIF_EVIDENCE_DIR="/tmp/sv_ev_" + sid), timeout=3000)
         lines = [l for l in out.splitlines() if l.startswith(("VIOLATION", "KNOWN-FINDING", "INCONCLUSIVE")) or l.startswith("violation:")]
         res["checks"][c] = dict(exit=rc, wall_s=round(time.time() - t), lines=[l[:400] for l in lines[:6]])
         print(c, "exit", rc, lines[:2])
-    sh("git -C /verif checkout -- evidence", cwd="/verif")
+    shutil.rmtree("/tmp/sv_ev_" + sid, ignore_errors=True)
     dst = "/verif/seeded/" + sid
     os.makedirs(dst, exist_ok=True)
     shutil.copy(patch, dst)
